@@ -181,3 +181,10 @@ def run(ctx):
                 r.fail('parity/data allocation sizes differ', func=f.name, sig=f'{C.val(allocs[0].ops[0])} vs {C.val(i.ops[0])}',
                        loc=i.loc, msg='fragments of one stripe are allocated with different sizes')
     ctx.assume('clang-14 and the repo\'s configured flags define the ABI of the packed header (x86-64, little endian)')
+    from . import c01, c08, c15
+    r = ctx.rule('R01a', 'payload split: data fragment i carries the next min(remaining, payload size) input bytes (cursor discipline)',
+                 'data fragment i must carry bytes [i*size,(i+1)*size) of the input, zero padded')
+    c01.cursor_rule(P, r, 'prepare_fragments_for_encode', 'src')
+    r.require_min(1)
+    c08.rule_roundup(ctx, P)
+    c15.rule_zero_fill(ctx, P)
